@@ -213,6 +213,8 @@ def cmdTgRender (args0 : List String) : String :=
     | _, _ => "bad-op"
   | ["setitem_mask", rank, rankM] => match parseNat? rank, parseNat? rankM with   -- x = in0, mask = in1, updates = in2
     | some r, some k => (setitemMaskGraph x (.inp 1) (.inp 2) r k).render | _, _ => "bad-op"
+  | ["setitem_int", rank, code] => match parseNat? rank, parseNat? code with     -- x = in0, index = in1, updates = in2
+    | some r, some c => (setitemIntGraph x (.inp 1) (.inp 2) r c).render | _, _ => "bad-op"
   | ["mask", rankM] => match parseNat? rankM with                              -- x = in0, mask = in1
     | some k => (maskGraph x (.inp 1) k).render | none => "bad-op"
   | ["nonzero", code, rank, i] => match parseNat? code, parseNat? rank, parseNat? i with
